@@ -14,6 +14,8 @@ def schema_for(seed: int, family: str, idx: int) -> dict:
     rng = random.Random(f"c17-{seed}-{family}-{idx}")
     if family == "grammar":
         return c17_gen.gen_schema(rng, idx)
+    if family == "latename":
+        return c17_gen.gen_latename_schema(rng, idx)
     return c17_gen.gen_identity_schema(rng, idx)
 
 
@@ -48,7 +50,8 @@ def run_one(schema: dict, rng, exercise: int) -> dict:
     out = {"idx": schema["idx"], "module": schema["module"], "tags": schema["tags"], "defloc": schema["defloc"],
            "build_error": (type(sr.build_error).__name__ + ": " + str(sr.build_error)[:200]) if sr.build_error else None,
            "findings": fs, "programs": progs, "calls": sr.calls, "errors_seen": sr.errors_seen, "info": sr.info,
-           "attr_reads": sorted(set(reads)), "attr_sets": sorted(set(sets))}
+           "attr_reads": sorted(set(reads)), "attr_sets": sorted(set(sets)), "reachable": sr.reachable, "unknown_fns": sr.unknown_fns,
+           "ns_not_builder": sum(1 for rec in sr.programs if rec.get("ns_is_builder_globals") is False)}
     c17_run.cleanup(sr)
     return out
 
